@@ -535,6 +535,38 @@ func sweepStrings(r *hx.Rand, extra int) {
 			}
 		}
 	}
+	// the scanner's string state machine (closing-quote counter x escape): every
+	// sequence of up to 3 symbols out of {", ', \", \', \\, \n, a, newline} as the body
+	// of a literal in every quoting, plain / raw / bytes; longer sequences sampled
+	syms := []string{`"`, `'`, `\"`, `\'`, `\\`, `\n`, "a", "\n"}
+	var seqs []string
+	var rec func(pre string, k int)
+	rec = func(pre string, k int) {
+		if pre != "" {
+			seqs = append(seqs, pre)
+		}
+		if k == 0 {
+			return
+		}
+		for _, y := range syms {
+			rec(pre+y, k-1)
+		}
+	}
+	rec("", 3)
+	for i := 0; i < 60+extra; i++ {
+		t := ""
+		for j, n := 0, 4+r.Intn(4); j < n; j++ {
+			t += syms[r.Intn(len(syms))]
+		}
+		seqs = append(seqs, t)
+	}
+	for _, t := range seqs {
+		for _, q := range strQuotes {
+			for _, p := range []string{"", "r", "b"} {
+				litString(p, q, strBody{t, "combo"})
+			}
+		}
+	}
 	// unterminated and other whole-literal shapes
 	for _, s := range []string{`"abc`, `'abc`, `"""abc`, `"""abc"`, `"""abc""`, `'''abc''`, `"abc'`, `"`, `'`, `""`, `''`, `"""`, `""""`, `"""""`, `""""""`, `'''''''`, `""""a"""`,
 		`"""a""""`, `r"\"`, `r"\\"`, `r"\""`, `rb'\''`, `b"é"`, `"a" "b"`, `"a""b"`, `r'a'r'b'`, `rb"x"`, `bb"x"`, `rr"x"`, `r b"x"`, `b r"x"`} {
